@@ -284,12 +284,48 @@ def scenarios():
     tgt = copy.deepcopy(old)
     diffing.apply_diff(d, tgt)
     return H.project(tgt)[0] == H.project(new)[0] or f'{H.project(tgt)[0]}'
-  for name, fn in [('posonly-set_tagged', s_posonly_set_tagged), ('posonly-select-replace', s_posonly_replace),
+  def s_posonly_iter_default():
+    cfg = fdl.Config(pos_fn, 1)
+    tagging.add_tag(cfg, 1, H.T0)           # positional-only parameter b=2, unset
+    tagging.add_tag(cfg, 0, H.T0)
+    got = sorted(selectors.select(cfg, tag=H.T0))
+    return got == [1, 2] or f'iteration yielded {got}, expected the value 1 and the default 2'
+  def s_annotation_plus_ctor_tag():
+    cfg = fdl.Config(ann_fn, x=H.T2.new(5), y=6)
+    ok = (tagging.get_tags(cfg, 'x') == frozenset([H.T0, H.T2]) and cfg.x == 5
+          and tagging.get_tags(cfg, 'y') == frozenset([H.T1, H.T2]))
+    cfg2 = fdl.Config(ann_fn, H.T2.new(5))
+    ok2 = tagging.get_tags(cfg2, 'x') == frozenset([H.T0, H.T2])
+    return (ok and ok2) or f'tags x={tagging.get_tags(cfg, "x")} / positional {tagging.get_tags(cfg2, "x")}'
+  def s_reused_tagged_value():
+    tv = H.T0.new(1)
+    cfg = fdl.Config(H.f1, s1=tv, s2=tv)
+    cfg.s3 = tv
+    tagging.add_tag(cfg, 's1', H.T2)
+    tagging.clear_tags(cfg, 's3')
+    got = {k: tagging.get_tags(cfg, k) for k in ('s1', 's2', 's3')}
+    exp = {'s1': frozenset([H.T0, H.T2]), 's2': frozenset([H.T0]), 's3': frozenset()}
+    sets = [id(s) for s in cfg.__argument_tags__.values()] + [id(tv.__argument_tags__['value'])]
+    return (got == exp and len(set(sets)) == len(sets) and tv.tags == {H.T0}) or f'{got}'
+  def s_json_many():
+    nodes = [fdl.Config(H.g4, s1=i) for i in range(6)]
+    masks = [1, 2, 4, 3, 5, 6]
+    for n, m in zip(nodes, masks):
+      for t in H.tags_of(m):
+        tagging.add_tag(n, 's2', t)
+    cfg = fdl.Config(H.f1, s1=nodes[:3], s2={'k1': nodes[3], 'k2': nodes[4]}, s3=nodes[5])
+    tagging.add_tag(cfg, 's1', H.T1)
+    back = serialization.load_json(serialization.dump_json(cfg))
+    return H.project(back)[0] == H.project(cfg)[0] or f'{H.project(back)[0]}'
+  for name, fn in [('posonly-iter-default', s_posonly_iter_default),
+                   ('annotation-plus-constructor-tag', s_annotation_plus_ctor_tag),
+                   ('reused-TaggedValue', s_reused_tagged_value), ('survive-json-many-nodes', s_json_many),
+                   ('posonly-set_tagged', s_posonly_set_tagged), ('posonly-select-replace', s_posonly_replace),
                    ('varargs-tag', s_varargs_tag), ('set_tags-by-index-on-pk', s_index_of_pk),
                    ('kwargs-tag', s_kwargs), ('annotation-tags', s_annotations),
                    ('Tag.new', s_tag_new), ('survive-json', s_json), ('survive-diff', s_diff)]:
     probe(name, fn)
-  return out, 9
+  return out, 13
 
 
 def main():
